@@ -353,10 +353,10 @@ B("sink.style_text", ["C02", "C08"], CB, "bounded_style_sink", "CellBuffer::styl
   "payloads of length <= 3 (thorough 4) over {<,&,>,],a,;,LF,U+0001,U+FFFE,\",'} in 3 channels: legend css, font family, stroke colour")
 B("C16.legend_css_format", ["C16"], CB, "bounded_legend_css_format", "CellBuffer::legend_css / add_css_styles",
   "'.svgbob .name{ decl }' per entry (also when a name repeats), in order, joined by newlines", "0..4 entries x 3 names x 4 declarations, every second list with a repeated name")
-B("C15.escape_line", ["C15", "C01", "C04"], CB, "bounded_escape_line", "CellBuffer::escape_line (on top of parser::line_parse)",
+B("C15.escape_line", ["C15", "C01", "C04", "C13"], CB, "bounded_escape_line", "CellBuffer::escape_line (on top of parser::line_parse)",
   "never panics; quoted segments found as '\"'..next '\"'; text stored verbatim (without fillers) at the opening quote's cell; "
   "the segment's columns, quotes included, blanked; everything else untouched",
-  "all column-expanded rows of <= 6 tokens (thorough 8) over {\", a, |, space, e-acute, wide CJK + NUL filler} (no backslash)")
+  "all column-expanded rows of <= 6 tokens (thorough 7) over {\", a, |, space, e-acute, wide CJK + NUL filler, combining acute U+0301, TAB} (no backslash)")
 
 CM = "map/circle_map.rs"
 K("Q1.circle_art_geometry", ["C13", "C12"], CM, "check_circle_art_geometry", "CircleArt::radius / center / edge_increment_x / diameter",
@@ -532,6 +532,13 @@ K("N3.canvas_margin", ["C12"], CB, "check_canvas_margin", "CellBuffer::get_size 
   timeout=600, assumes=["CellBuffer::bounds replaced by an opaque result"])
 B("N2.cellbuffer_bounds", ["C12"], CB, "bounded_cellbuffer_bounds", "CellBuffer::bounds", "per-axis min / max of the occupied cells; None iff empty",
   "all 31 non-empty subsets of 5 cells + 2 empty drawings (BTreeMap iteration)")
+B("N1.get_size_every_route", ["C12"], CB, "bounded_get_size_every_route", "CellBuffer::get_size / get_node_with_size / From<&str> / DerefMut<Target = BTreeMap>",
+  "the canvas follows the cells that are in the buffer now, whichever way they got there (parsed, inserted through the map interface, removed)",
+  "5 texts x 64 subsets of 6 inserted cells x {keep, remove the last inserted} x scales 1, 8")
+B("N3.arc_catalogue_inside_canvas", ["C12", "C13"], CB, "bounded_arc_catalogue_inside_canvas",
+  "QUARTER_ARC_SPAN / HALF_ARC_SPAN / THREE_QUARTERS_ARC_SPAN (lazy tables), Span::endorse, CellBuffer::get_size, Fragment::bounds",
+  "every arc drawing of the three catalogues, drawn free-standing, is recognised into fragments whose bounds lie inside the canvas",
+  "all (arc, span) entries of the three tables x 3 offsets x scales 1, 8")
 B("N3.plain_text_inside_canvas", ["C12"], CB, "bounded_plain_text_inside_canvas", "CellBuffer::get_fragment_spans / get_size / Fragment::bounds",
   "every fragment that comes from the cell map (lines, text incl. wide characters) lies inside the canvas, at scales 0.5, 8, 37.5 "
   "(the complement of the known finding about quoted text)",
